@@ -24,7 +24,7 @@ THEOREMS = ["C14_build_closed", "C14_heal_closed", "C14_replace_closed", "C14_cl
             "C14_heal_terminates", "C14_source_untouched_observe", "C14_extend_closed",
             "C14_extend_source_untouched", "C14_extend_preserved", "C14_visibility_types",
             "C14_visibility_members", "C14_clone_preserved", "C14_vis_preserved", "C14_camel_preserved",
-            "C14_camel_complete", "C14_visibility_complete"]
+            "C14_camel_complete", "C14_visibility_complete", "C14_clone_observe_equal", "C14_clone_repeatable"]
 AXIOMS_OK = []
 RUN_MODULE = "Run.C14run Schema.StoreModel Schema.StoreExtend"
 AGREE = "agree_C14"
@@ -618,6 +618,12 @@ def run_impl(case):
             so["repeat"] = rep
         if res is not None and not step.get("inplace") and step["op"] != "extend":
             so["shared_members"] = _shared_members(target, res)
+        if res is not None and step["op"] == "clone":
+            # hypothesis of C14_clone_observe_equal: Schema(...) over a schema's own types lists them in
+            # the same order
+            so["clone_order_same"] = ([n for n in res.types if not n.startswith("__")]
+                                      == [n for n in target.types if not n.startswith("__")]
+                                      and list(res.directives) == list(target.directives))
         # the `nodes` lists (applied schema directives) of every other live schema: same list, same items,
         # same custom-directive SDL as when the schema was produced
         touched = on if step.get("inplace") else None
@@ -1073,10 +1079,13 @@ def extra_evidence(cases, obss):
             statuses[so["status"]] = statuses.get(so["status"], 0) + 1
             inplace += 1 if s.get("inplace") else 0
     ts_fail = sum(1 for o in obss for so in o.get("steps", []) if "to_string_exc" in so.get("result_probe", {}))
+    order = [sum(1 for o in obss for so in o.get("steps", []) if so.get("clone_order_same") is True),
+             sum(1 for o in obss for so in o.get("steps", []) if "clone_order_same" in so)]
     shared = sum(1 for o in obss for so in o.get("steps", []) if so.get("shared_nodes_lists"))
     with_res = sum(1 for o in obss for so in o.get("steps", []) if "shared_nodes_lists" in so)
     return {"result_to_string_failures_not_demanded_by_C14": ts_fail,
             "results_sharing_nodes_list_objects_with_the_source_not_a_violation": [shared, with_res],
+            "clones_listing_types_and_directives_in_the_order_of_their_source": order,
             "distribution": {"operations": ops, "step_status": statuses, "in_place_steps": inplace,
                              "history_lengths": lens,
                              "heap_objects_mean": round(sum(len(o["init"]["objs"]) for o in obss if "init" in o)
